@@ -485,6 +485,10 @@ func TestVerifExplorerSets(t *testing.T) {
 	keys := vhNewKeys("explorer|" + os.Getenv("VERIF_SEED"))
 	for _, sc := range scs {
 		ghRunScenario(tr, keys, sc)
+		// a crash in a goroutine of the code under test (the updater loop) kills the process: keep what is complete
+		tr.mu.Lock()
+		tr.w.Flush()
+		tr.mu.Unlock()
 	}
 	tr.Close()
 	fmt.Printf("VERIF-REPLAYED %d scenarios %s\n", len(scs), strconv.Itoa(len(scs)))
